@@ -88,8 +88,11 @@ func LoadFilter(filter *wire.MsgFilterLoad) *Filter {
 //
 // This function is safe for concurrent access.
 func (bf *Filter) IsLoaded() bool {
+	simPoint(siteBeforeLock, &bf.mtx)
 	bf.mtx.Lock()
+	simPoint(siteAfterLock, &bf.mtx)
 	loaded := bf.msgFilterLoad != nil
+	simPoint(siteBeforeUnlock, &bf.mtx)
 	bf.mtx.Unlock()
 	return loaded
 }
@@ -98,8 +101,11 @@ func (bf *Filter) IsLoaded() bool {
 //
 // This function is safe for concurrent access.
 func (bf *Filter) Reload(filter *wire.MsgFilterLoad) {
+	simPoint(siteBeforeLock, &bf.mtx)
 	bf.mtx.Lock()
+	simPoint(siteAfterLock, &bf.mtx)
 	bf.msgFilterLoad = filter
+	simPoint(siteBeforeUnlock, &bf.mtx)
 	bf.mtx.Unlock()
 }
 
@@ -107,8 +113,11 @@ func (bf *Filter) Reload(filter *wire.MsgFilterLoad) {
 //
 // This function is safe for concurrent access.
 func (bf *Filter) Unload() {
+	simPoint(siteBeforeLock, &bf.mtx)
 	bf.mtx.Lock()
+	simPoint(siteAfterLock, &bf.mtx)
 	bf.msgFilterLoad = nil
+	simPoint(siteBeforeUnlock, &bf.mtx)
 	bf.mtx.Unlock()
 }
 
@@ -142,6 +151,7 @@ func (bf *Filter) matches(data []byte) bool {
 	//   bitOffset := idx % 8      (idx & 7)
 	///  if filter[arrayIndex] & 1<<bitOffset == 0 { ... }
 	for i := uint32(0); i < bf.msgFilterLoad.HashFuncs; i++ {
+		simPoint(siteHashLoop, nil)
 		idx := bf.hash(i, data)
 		if bf.msgFilterLoad.Filter[idx>>3]&(1<<(idx&7)) == 0 {
 			return false
@@ -155,8 +165,11 @@ func (bf *Filter) matches(data []byte) bool {
 //
 // This function is safe for concurrent access.
 func (bf *Filter) Matches(data []byte) bool {
+	simPoint(siteBeforeLock, &bf.mtx)
 	bf.mtx.Lock()
+	simPoint(siteAfterLock, &bf.mtx)
 	match := bf.matches(data)
+	simPoint(siteBeforeUnlock, &bf.mtx)
 	bf.mtx.Unlock()
 	return match
 }
@@ -179,8 +192,11 @@ func (bf *Filter) matchesOutPoint(outpoint *wire.OutPoint) bool {
 //
 // This function is safe for concurrent access.
 func (bf *Filter) MatchesOutPoint(outpoint *wire.OutPoint) bool {
+	simPoint(siteBeforeLock, &bf.mtx)
 	bf.mtx.Lock()
+	simPoint(siteAfterLock, &bf.mtx)
 	match := bf.matchesOutPoint(outpoint)
+	simPoint(siteBeforeUnlock, &bf.mtx)
 	bf.mtx.Unlock()
 	return match
 }
@@ -201,6 +217,7 @@ func (bf *Filter) add(data []byte) {
 	//   bitOffset := idx % 8     (idx & 7)
 	///  filter[arrayIndex] |= 1<<bitOffset
 	for i := uint32(0); i < bf.msgFilterLoad.HashFuncs; i++ {
+		simPoint(siteHashLoop, nil)
 		idx := bf.hash(i, data)
 		bf.msgFilterLoad.Filter[idx>>3] |= (1 << (7 & idx))
 	}
@@ -210,8 +227,11 @@ func (bf *Filter) add(data []byte) {
 //
 // This function is safe for concurrent access.
 func (bf *Filter) Add(data []byte) {
+	simPoint(siteBeforeLock, &bf.mtx)
 	bf.mtx.Lock()
+	simPoint(siteAfterLock, &bf.mtx)
 	bf.add(data)
+	simPoint(siteBeforeUnlock, &bf.mtx)
 	bf.mtx.Unlock()
 }
 
@@ -219,8 +239,11 @@ func (bf *Filter) Add(data []byte) {
 //
 // This function is safe for concurrent access.
 func (bf *Filter) AddHash(hash *chainhash.Hash) {
+	simPoint(siteBeforeLock, &bf.mtx)
 	bf.mtx.Lock()
+	simPoint(siteAfterLock, &bf.mtx)
 	bf.add(hash[:])
+	simPoint(siteBeforeUnlock, &bf.mtx)
 	bf.mtx.Unlock()
 }
 
@@ -240,8 +263,11 @@ func (bf *Filter) addOutPoint(outpoint *wire.OutPoint) {
 //
 // This function is safe for concurrent access.
 func (bf *Filter) AddOutPoint(outpoint *wire.OutPoint) {
+	simPoint(siteBeforeLock, &bf.mtx)
 	bf.mtx.Lock()
+	simPoint(siteAfterLock, &bf.mtx)
 	bf.addOutPoint(outpoint)
+	simPoint(siteBeforeUnlock, &bf.mtx)
 	bf.mtx.Unlock()
 }
 
@@ -284,6 +310,7 @@ func (bf *Filter) matchTxAndUpdate(tx *bchutil.Tx) bool {
 	// from the client and avoids some potential races that could otherwise
 	// occur.
 	for i, txOut := range tx.MsgTx().TxOut {
+		simPoint(siteTxOutput, nil)
 		pushedData, err := txscript.PushedData(txOut.PkScript)
 		if err != nil {
 			continue
@@ -299,6 +326,8 @@ func (bf *Filter) matchTxAndUpdate(tx *bchutil.Tx) bool {
 			break
 		}
 	}
+
+	simPoint(siteTxPhase, nil)
 
 	// Nothing more to do if a match has already been made.
 	if matched {
@@ -336,8 +365,11 @@ func (bf *Filter) matchTxAndUpdate(tx *bchutil.Tx) bool {
 //
 // This function is safe for concurrent access.
 func (bf *Filter) MatchTxAndUpdate(tx *bchutil.Tx) bool {
+	simPoint(siteBeforeLock, &bf.mtx)
 	bf.mtx.Lock()
+	simPoint(siteAfterLock, &bf.mtx)
 	match := bf.matchTxAndUpdate(tx)
+	simPoint(siteBeforeUnlock, &bf.mtx)
 	bf.mtx.Unlock()
 	return match
 }
@@ -347,8 +379,11 @@ func (bf *Filter) MatchTxAndUpdate(tx *bchutil.Tx) bool {
 //
 // This function is safe for concurrent access.
 func (bf *Filter) MsgFilterLoad() *wire.MsgFilterLoad {
+	simPoint(siteBeforeLock, &bf.mtx)
 	bf.mtx.Lock()
+	simPoint(siteAfterLock, &bf.mtx)
 	msg := bf.msgFilterLoad
+	simPoint(siteBeforeUnlock, &bf.mtx)
 	bf.mtx.Unlock()
 	return msg
 }
